@@ -15,7 +15,7 @@ TEXT = [  # value classes of the quantifier (single-line, no leading/trailing bl
 PCT = {"relname": "100%% pure %(arch)s", "relshort": "P%", "relver": "22", "bpname": "b%", "bpshort": "B", "bpver": "7", "vname": "%s %%"}
 IDS = [{"A": "Server", "B": "Client", "S": "Server", "o": "optional", "T": "Tools", "h": "HighAvailability", "g": "Extras"},
        {"A": "a", "B": "B9", "S": "Z", "o": "optional", "T": "t", "h": "H", "g": "0"}]
-ARCHS = [("x86_64", "xen", "lpae"), ("ppc64le", "p8", "b"), ("aarch64", "X", "y"), ("i386", "xen-pv", "xen")]   # a platform name may contain dashes
+ARCHS = [("x86_64", "xen", "lpae"), ("ppc64le", "p8", "b"), ("aarch64", "X", "y"), ("i386", "xen-pv", "xen"), ("armhfp", "omap", "tegra")]   # a platform name may contain dashes
 IMG = {"boot": "images/boot.iso", "kernel": "images/pxeboot/vmlinuz", "xenkernel": "images/pxeboot/vmlinuz-xen", "initrd": "images/Initrd.IMG",
        "stage2": "LiveOS/squashfs.img", "inst": "images/install.img"}
 
@@ -361,7 +361,9 @@ def compare_trees(a, b):
 # ------------------------------------------------------------------ discinfo
 
 TS = {"intfloat": 1432300000.0, "fraction": 1386856788.124593, "huge": 1e22, "negative": -1.5, "tiny": 1e-07}
-DESC = {"plain": "Fedora 22", "innerquote": "Fedora \"22\" it's", "blanks": "Red  Hat   Enterprise Linux 7.1", "unicode": "Fédora ünï 22"}
+DESC = {"plain": "Fedora 22", "innerquote": "Fedora \"22\" it's", "blanks": "Red  Hat   Enterprise Linux 7.1", "unicode": "Fédora ünï 22",
+        # a quote at one end only is not "wrapped in quotes"; characters some text APIs take for line ends are not line ends of the file syntax
+        "endquote": "Fedora \"21\"", "startquote": "'Twas Fedora 21", "separators": "Fedora 20\x0cServer\x1c\x85 \u2028x"}
 DISCS = {"ALL": ["ALL"], "one": [1], "three": [1, 2, 3], "unsorted": [3, 1, 12]}
 
 
@@ -395,11 +397,30 @@ def eval_disc(case):
             fails.append("%s: %s wrote %r, read %r" % (what, at, getattr(di, at), getattr(d2, at)))
     if d2.dumps() != text:
         fails.append("%s: re-written file differs" % what)
+    # a loaded object is edited in place (its disc number list is its own) and written; a later load elsewhere is unaffected
+    if not fails:
+        try:
+            d3 = DiscInfo()
+            d3.loads(text)
+            del d3.disc_numbers[:]
+            d3.disc_numbers.extend([4, 2])
+            if d3.dumps().split("\n")[3:] != ["4,2"]:
+                fails.append("%s: loaded, disc numbers edited in place to [4, 2], written as %r" % (what, d3.dumps().split("\n")[3:]))
+            d4 = DiscInfo()
+            d4.loads(text)
+            if d4.disc_numbers != di.disc_numbers:
+                fails.append("%s: after another object's disc numbers were edited in place, loading the same file gives %r" % (what, d4.disc_numbers))
+        except Exception as exc:
+            fails.append("%s: loaded, disc numbers edited in place to [4, 2], then written / loaded again: %s: %s" % (what, type(exc).__name__, exc))
     # the same object then reads ANOTHER file: nothing of the first may survive
     for other_discs, other_desc in ((["ALL"], "Other"), ([7, 8], "Other")):
         o = DiscInfo()
         o.timestamp, o.description, o.arch, o.disc_numbers = 1500000000.5, other_desc, di.arch, list(other_discs)
-        t2 = o.dumps()
+        try:
+            t2 = o.dumps()
+        except Exception as exc:
+            fails.append("%s: afterwards a fresh valid discinfo (%r) is refused: %s: %s" % (what, other_discs, type(exc).__name__, exc))
+            break
         for tx in (t2, "\n".join(t2.split("\n")[:3])):          # also without the optional fourth line (= ALL)
             if tx != t2 and other_discs != ["ALL"]:
                 continue
